@@ -153,7 +153,7 @@ MustReturn(op, k1, k2) ==
 
 (* ---- comparison -------------------------------------------------------- *)
 \* what each operator must answer for SI magnitudes a, b:  "judged" outside the rounding band
-CmpRelGap  == "1e-9"      \* differ by more than this (relative)  => ordered as magnitudes
+CmpRelGap  == "1e-12"     \* differ by more than this (relative)  => ordered as magnitudes (the implementation tolerates 1e-14; rounding is ~1e-16)
 CmpRelSame == "1e-15"     \* differ by no more than this (relative) => the same magnitude
 CmpClass(a, b) == LET m == RMax(RAbs(a), RAbs(b))  d == RAbs(RSub(a, b)) IN
                   IF RLe(d, RMul(CmpRelSame, m)) THEN "same"
